@@ -31,8 +31,11 @@ import PyaModel.Spec.Mem
   fallback) or `Any[error]`; `list[T]` / `tuple[T, ...]` / `Sequence[T]` give `T`; a union on the left
   distributes (`flatten_unions`) and the results are united.
 
-Not modelled: everything else (loops, try, match, calls, boolean operators as values, comparisons as
-values, attribute access, augmented assignment, unpacking, `possibly_undefined_name` for names bound on one
+* unpacking `x1, …, xn = e` without starred target (`unpack_values`, section below) and calls to annotated
+  module-level helper functions (the declared return type, whatever the arguments).
+
+Not modelled: everything else (loops, try, match, generic / builtin calls, boolean operators as values, comparisons as
+values, attribute access, augmented assignment, starred unpacking, `possibly_undefined_name` for names bound on one
 path only — the generator only reads definitely assigned names —, `simplification_limit`).
 -/
 namespace Pya.C01
@@ -53,17 +56,21 @@ inductive Expr where
   | disp (isList : Bool) (es : List Expr)     -- `(e, …)` / `[e, …]`
   | sub (e : Expr) (i : Int)                  -- `e[i]`, literal int index
   | ite (t : Test) (a b : Expr)               -- `a if t else b`
+  | call (f : Nat) (args : List Expr)         -- `h_f(e, …)`: an annotated module-level helper function
   deriving Repr, Inhabited
 
 inductive Stmt where
   | assign (x : Var) (e : Expr)
   | ifs (t : Test) (body els : List Stmt)
   | ret (e : Expr)
+  | unpack (xs : List Var) (e : Expr)         -- `x1, …, xn = e` (plain names, no starred target)
   deriving Repr, Inhabited
 
-/-- A function: the declared parameter types (parameters are the variables 0, 1, …) and the body. -/
+/-- A function: the declared parameter types (parameters are the variables 0, 1, …), the declared return types of
+the helper functions it may call, and the body. -/
 structure Prog where
   params : List Ty
+  rets : List Ty := []
   body : List Stmt
   deriving Repr, Inhabited
 
@@ -257,6 +264,68 @@ def subscript (v : Ty) (i : Int) : Ty × Flags :=
   | .union ts => let (rs, f) := subL i ts; (unite rs, f)
   | _ => sub1 v i
 
+/-! ## iterable unpacking (`value.py:3135 unpack_values`, no starred target) -/
+
+/-- `replace_known_sequence_value` (value.py) for the shapes of the fragment -/
+def replaceKnownSeq (v : Ty) : Ty :=
+  match unannot v with
+  | .known (.tuple xs) => .seq C.tuple (xs.map Ty.known)
+  | .known (.list xs) => .seq C.list (xs.map Ty.known)
+  | t => t
+
+def isKnown : Ty → Bool
+  | .known _ => true
+  | _ => false
+
+/-- one non-union value: `none` = `CanAssignError` (every target then gets `Any[error]`).
+Tuple forms must have exactly `n` members (`_unpack_sequence_value`); list forms of another length fall back to
+the element type `args[0]`; `list[T]` / `tuple[T, ...]` give `T` (`is_iterable`). Forms with an unpacked member
+and the other iterables are computed roughly and flagged `frag`. -/
+def unpack1 (v : Ty) (n : Nat) : Option (List Ty) × Flags :=
+  match replaceKnownSeq v with
+  | .seq c ms =>
+    let pairs := memberPairs ms
+    let lit : Flags := { litEq := isKnown (unannot v) && ms.any (fun m => match m with | .known o => numLike o | _ => false) }
+    if pairs.any (·.1) then (some (List.replicate n .any), { frag := true })
+    else if c == C.tuple then (if ms.length == n then (some ms, lit) else (none, {}))
+    else if c == C.list then
+      (if ms.length == n then (some ms, lit)
+       else if ms.isEmpty then (some (List.replicate n .any), { frag := true })
+       else (some (List.replicate n (unite ms)),
+             { frag := ms.any (fun m => match m with | .any => true | _ => false) }))
+    else (some (List.replicate n .any), { frag := true })
+  | .generic c [t] =>
+    if c == C.list || c == C.tuple then (some (List.replicate n t), {}) else (some (List.replicate n t), { frag := true })
+  | .any => (some (List.replicate n .any), {})
+  | _ => (none, { frag := true })
+
+def unpackL (n : Nat) : List Ty → Option (List (List Ty)) × Flags
+  | [] => (some [], {})
+  | v :: vs =>
+    let (r, f) := unpack1 v n
+    let (rs, g) := unpackL n vs
+    (match r, rs with
+     | some x, some xs => some (x :: xs)
+     | _, _ => none, f.or g)
+
+/-- `[unite_values(*vals) for vals in zip(*rows)]` -/
+def colsUnite : Nat → List (List Ty) → List Ty
+  | 0, _ => []
+  | n + 1, rows => unite (rows.map (·.headD .any)) :: colsUnite n (rows.map List.tail)
+
+/-- `unpack_values(value, ctx, n)`; on an error every target is `Any[error]` (`_visit_display` :3297) -/
+def unpackVals (v : Ty) (n : Nat) : List Ty × Flags :=
+  match v with
+  | .union [] => (List.replicate n .any, { frag := true })
+  | .union ts =>
+    (match unpackL n ts with
+     | (some rows, f) => (colsUnite n rows, f)
+     | (none, f) => (List.replicate n .any, f))
+  | _ =>
+    (match unpack1 v n with
+     | (some vs, f) => (vs, f)
+     | (none, f) => (List.replicate n .any, f))
+
 /-! ## inference -/
 
 structure St where
@@ -276,6 +345,10 @@ def St.lookup (st : St) (x : Var) : Ty × St :=
 
 /-- visiting the test reads the variable (`visit_Compare` → `visit_Name`) -/
 def Test.var (t : Test) : Var := t.con.1
+
+section
+-- `R`: the declared return types of the helper functions
+variable (R : List Ty)
 
 mutual
 def inferExpr (st : St) (p : Path) : Expr → Ty × St
@@ -298,6 +371,12 @@ def inferExpr (st : St) (p : Path) : Expr → Ty × St
     let (vb, sb) := inferExpr ({ sa with sc := st0.sc }.addCon x (!pos)) (2 :: p) b
     let t := unite [va, vb]
     (t, { sb with sc := joinScopes sa.sc sb.sc, log := sb.log ++ [(p, t)] })
+  | .call f args =>
+    -- `visit_Call` on an annotated function: the arguments are visited (and checked — diagnostics are not modelled),
+    -- the result is the declared return type whether or not the arguments fit (signature.py check_call)
+    let (_, st1) := inferList st p 0 args
+    let t := R.getD f .any
+    (t, { st1 with log := st1.log ++ [(p, t)] })
 def inferList (st : St) (p : Path) (k : Nat) : List Expr → List Ty × St
   | [] => ([], st)
   | e :: es =>
@@ -306,15 +385,24 @@ def inferList (st : St) (p : Path) (k : Nat) : List Expr → List Ty × St
     (t :: ts, st2)
 end
 
+/-- the targets are visited left to right, each one is a new definition node -/
+def assignAll (st : St) : List Var → List Ty → St
+  | x :: xs, v :: vs => assignAll { st with sc := st.sc.set x [.val st.next v], next := st.next + 1 } xs vs
+  | _, _ => st
+
 /-! Result of a block: the state, and whether the block falls through (no `return` on the way). -/
 mutual
 def inferStmt (st : St) (p : Path) : Stmt → St × Bool
   | .assign x e =>
-    let (v, st1) := inferExpr st (0 :: p) e
+    let (v, st1) := inferExpr R st (0 :: p) e
     ({ st1 with sc := st1.sc.set x [.val st1.next v], next := st1.next + 1 }, true)
   | .ret e =>
-    let (_, st1) := inferExpr st (0 :: p) e
+    let (_, st1) := inferExpr R st (0 :: p) e
     (st1, false)
+  | .unpack xs e =>
+    let (v, st1) := inferExpr R st (0 :: p) e
+    let (vs, f) := unpackVals v xs.length
+    (assignAll { st1 with flags := st1.flags.or f } xs vs, true)
   | .ifs tst body els =>
     let (_, st0) := st.lookup tst.var
     let (x, pos) := tst.con
@@ -329,6 +417,8 @@ def inferBlock (st : St) (p : Path) (k : Nat) : List Stmt → St × Bool
     if f1 then inferBlock st1 p (k + 1) ss else (st1, false)
 end
 
+end
+
 def initScope (k : Nat) : List Ty → Scope
   | [] => []
   | t :: ts => (k, [Def.val k t]) :: initScope (k + 1) ts
@@ -337,6 +427,6 @@ def initSt (prog : Prog) : St :=
   { sc := initScope 0 prog.params, next := prog.params.length, flags := {}, log := [] }
 
 /-- What pyanalyze infers for every expression node of the function: `(path, value)` in visiting order. -/
-def infer (prog : Prog) : St := (inferBlock (initSt prog) [] 0 prog.body).1
+def infer (prog : Prog) : St := (inferBlock prog.rets (initSt prog) [] 0 prog.body).1
 
 end Pya.C01
